@@ -453,3 +453,39 @@ DEFAULT_TRUSTED = [
     "Go harness (harness/*.go) and Python driver (lib/hv.py, checks/*.py)",
     "hand-written model tied to /repo only through the correspondence run of this check",
 ]
+
+
+def run_harness_resilient(name, cases, timeout=3000, max_crashes=25, **kw):
+    """Run all cases; when the executor process dies (fatal Go error, stack overflow, timeout) on a
+    case, record that case as a crash and continue with the cases after it.
+    Returns (obs_by_id, crashes) with crashes = [(case, rc, stderr_tail)]."""
+    obs_by_id, crashes = {}, []
+    todo = list(cases)
+    while todo:
+        rc, obs, err = run_harness(name, todo, timeout=timeout, **kw)
+        for o in obs:
+            obs_by_id[o["id"]] = o
+        if rc == 0 and len(obs) >= len(todo):
+            break
+        done = {o["id"] for o in obs}
+        idx = next((i for i, c in enumerate(todo) if c["id"] not in done), None)
+        if idx is None:
+            break
+        crashes.append((todo[idx], rc, err[-1500:]))
+        todo = todo[idx + 1:]
+        if len(crashes) >= max_crashes:
+            break
+    return obs_by_id, crashes
+
+
+def run_harness_parallel(name, cases, nproc=8, **kw):
+    """Split the cases over several executor processes (for cases that sleep). Returns (rc, obs, stderr)."""
+    from concurrent.futures import ThreadPoolExecutor
+    chunks = [cases[i::nproc] for i in range(nproc)]
+    chunks = [c for c in chunks if c]
+    with ThreadPoolExecutor(max_workers=len(chunks) or 1) as ex:
+        res = list(ex.map(lambda ch: run_harness(name, ch, **kw), chunks))
+    rc = max((r[0] for r in res), default=0)
+    obs = [o for r in res for o in r[1]]
+    err = "".join(r[2][-500:] for r in res if r[2])
+    return rc, obs, err
